@@ -58,3 +58,15 @@ def consistent_assignments(facts, atom: Callable[[ast.expr], Optional[str]], nam
         if ok:
             out.append(env)
     return out
+
+
+def consistent_assignments_state(state, atom, names: list[str]) -> list[dict[str, bool]]:
+    """Same, for a trace-partitioned flow state: an assignment is possible if some alternative of the state allows it."""
+    out: list[dict[str, bool]] = []
+    if state is None:
+        return out
+    for must, _may in state.parts:
+        for env in consistent_assignments(must, atom, names):
+            if env not in out:
+                out.append(env)
+    return out
